@@ -255,7 +255,7 @@ func (C02Mon) After(w *core.World, st *core.Step) {
 }
 
 func runC02(c *core.Ctx) {
-	n := c.Pick(150, 3000)
+	n := c.Pick(600, 4000)
 	c.RunHistories(n, Registry["C02"].Mons, func(w *core.World) {
 		wts := map[string]int{
 			"edit-new": 14, "edit-mod": 10, "edit-rm": 4, "edit-rmdir": 2, "edit-same": 1,
